@@ -290,6 +290,54 @@ def ev3(e, atoms):
     return None
 
 
+def as_conditional_assign(stmt):
+    """`if c: x = A` / `else: x = B` (each arm exactly that one assignment; elif chains nest) seen from one of its arm
+    assignments: the equivalent single statement `x = A if c else B` (synthetic, located at the if), else None.  The
+    canonical form splits top-level conditional expressions into such statements; a rule that keeps a catalogue of
+    statement shapes asks here for the one-statement spelling."""
+    par = getattr(stmt, "_xv_parent", None)
+    if not (isinstance(stmt, ast.Assign) and isinstance(par, ast.If) and len(stmt.targets) == 1 and isinstance(stmt.targets[0], ast.Name)):
+        return None
+
+    def fold(i):
+        if isinstance(i, ast.Assign) and len(i.targets) == 1 and isinstance(i.targets[0], ast.Name) and i.targets[0].id == stmt.targets[0].id:
+            return i.value
+        if isinstance(i, ast.If) and len(i.body) == 1 and len(i.orelse) == 1:
+            a, b = fold(i.body[0]), fold(i.orelse[0])
+            if a is not None and b is not None:
+                return ast.IfExp(test=i.test, body=a, orelse=b)
+        return None
+
+    top = par
+    while isinstance(getattr(top, "_xv_parent", None), ast.If) and len(top._xv_parent.orelse) == 1 and top._xv_parent.orelse[0] is top:
+        top = top._xv_parent
+    v = fold(top)
+    if v is None:
+        return None
+    out = ast.Assign(targets=[ast.Name(id=stmt.targets[0].id, ctx=ast.Store())], value=v, type_comment=None)
+    ast.copy_location(out, top)
+    ast.fix_missing_locations(out)
+    return out
+
+
+def value_arms(defs, e, depth=4, _seen=frozenset()):
+    """the expressions ``e`` can evaluate to, looking through conditional expressions and through locals with one or more
+    plain assignments (`x = A if c else B` and `if c: x = A` / `else: x = B` give the same arms).  A name with another kind
+    of definition (parameter, loop target, unpacking ...) is an arm itself."""
+    if depth <= 0:
+        return [e]
+    if isinstance(e, ast.IfExp):
+        return value_arms(defs, e.body, depth - 1, _seen) + value_arms(defs, e.orelse, depth - 1, _seen)
+    if isinstance(e, ast.Name) and e.id not in _seen:
+        ds = defs.get(e.id, [])
+        if ds and all(d.kind == "assign" and d.value is not None for d in ds):
+            out = []
+            for d in ds:
+                out += value_arms(defs, d.value, depth - 1, _seen | {e.id})
+            return out
+    return [e]
+
+
 def alias_class(defs, name, depth=6):
     """names connected with ``name`` by plain copies in either direction (x = name; name = y ...)"""
     out = {name}
